@@ -73,6 +73,20 @@ def catalogue():
   add("Visibility", sp.VisibilityType.hidden, sp.VisibilityType.visible)
   add("WrapOption", sp.WrapOptionType.noWrap, sp.WrapOptionType.wrap)
   add("WritingMode", sp.WritingModeType.tbrl, sp.WritingModeType.tblr, sp.WritingModeType.rltb, sp.WritingModeType.lrtb)
+  # every property's own initial value, written out explicitly: a specified (or <initial>) value that merely restates the
+  # initial value is a specified value all the same (it overrides what would be inherited, or derived from another property)
+  for prop in sorted(sp.StyleProperties.ALL, key=lambda p: p.__name__):
+    name = prop.__name__
+    if name in ("Display", "ShowBackground") or name not in index:
+      continue
+    try:
+      iv = prop.make_initial_value()
+    except Exception:  # pylint: disable=broad-except
+      continue
+    if iv is None or not prop.validate(iv):
+      continue
+    if not any(repr(vals[t]) == repr(iv) for t in index[name]):
+      add(name, iv)
   return vals, index
 
 
@@ -158,6 +172,20 @@ def decorate(ad, rng, index, p_style=0.35, p_anim=0.2, nonzero_offsets=True):
     lst[:] = [x for x in lst if x[0] not in ("Display", "ShowBackground")]
   if rng.random() < 0.3:
     ad["initials"] = [[prop, rng.choice(index[prop])] for prop in rng.sample(props, rng.randint(1, 4)) if prop not in ("Display", "ShowBackground")]
+  if rng.random() < 0.12:
+    ad["ishowbg"] = "whenActive"
+    if ad["nr"] == 0 and rng.random() < 0.6:
+      # ... and a background colour for the made-up region of a document without regions (shown only while it has content)
+      ad["initials"] = [x for x in ad.get("initials", []) if x[0] != "BackgroundColor"] + [["BackgroundColor", index["BackgroundColor"][0]]]
+  # properties that are derived from one another (or resolved against one another) on the same element: one specified, the
+  # other one animated for a while
+  PAIRS = [("Position", "Origin"), ("Origin", "Position"), ("Extent", "Position"), ("Extent", "Origin"), ("WritingMode", "Direction"),
+           ("Extent", "Padding"), ("WritingMode", "Padding"), ("FontSize", "LineHeight"), ("FontSize", "Padding")]
+  if ad["nr"] and not ad.get("t0") and rng.random() < 0.25:
+    a, b_ = rng.choice(PAIRS)
+    r = rng.randrange(ad["nr"])
+    ad["rstyles"][r] = [x for x in ad["rstyles"][r] if x[0] != a] + [[a, rng.choice(index[a])]]
+    ad["ranim_styles"][r] = [x for x in ad["ranim_styles"][r] if x[0] not in (a, b_)] + [[b_, rng.choice(index[b_]), 0, t_opt()]]
   if rng.random() < 0.5:
     ad["cell"] = rng.choice([[15, 32], [24, 40], [10, 20]])
   if rng.random() < 0.5:
